@@ -127,7 +127,7 @@ def hostile_rotations(rng, n, a, b, width, extra=4):
 
 # ------------------------------------------------------------------ instances of a structure pattern
 
-_TOK = re.compile(r"[A-Z][*+]\??|[A-Z]|[()]")
+_TOK = re.compile(r"[A-Za-z][*+]\??|[A-Za-z]|[()]")      # (a lower-case letter in a pattern is the same nucleotide code: patterns are case-insensitive)
 
 
 def instance(rng, pattern, run_max=12, run_min=0, groups=None, run_filter=None):
@@ -157,16 +157,16 @@ def instance(rng, pattern, run_max=12, run_min=0, groups=None, run_filter=None):
         if len(t) > 1 and run_filter is not None:
             lo = max(run_min, 1 if t[1] == "+" else 0)
             for _ in range(500):
-                txt = "".join(rng.choice(IUPAC[t[0]]) for _ in range(rng.randint(lo, max(lo, run_max))))
+                txt = "".join(rng.choice(IUPAC[t[0].upper()]) for _ in range(rng.randint(lo, max(lo, run_max))))
                 if run_filter(txt):
                     break
             out.append(txt)
             continue
         if len(t) > 1:
             lo = max(run_min, 1 if t[1] == "+" else 0)
-            out.append("".join(rng.choice(IUPAC[t[0]]) for _ in range(rng.randint(lo, max(lo, run_max)))))
+            out.append("".join(rng.choice(IUPAC[t[0].upper()]) for _ in range(rng.randint(lo, max(lo, run_max)))))
         else:
-            out.append(rng.choice(IUPAC[t]))
+            out.append(rng.choice(IUPAC[t.upper()]))
     return "".join(out)
 
 
@@ -300,7 +300,7 @@ def make_record(spec, cls=None):
             parts = [FeatureLocation(_position(z[0] if z else "e", p[0], True), _position(z[1] if z else "e", p[1], False), p[2],
                                      ref=p[3] if len(p) > 3 else None, ref_db=p[4] if len(p) > 4 else None) for p, z in zip(f["parts"], fz)]
             loc = parts[0] if len(parts) == 1 else CompoundLocation(parts)
-        feats.append(SeqFeature(loc, type=f["type"], qualifiers={k: list(v) for k, v in f.get("quals", {}).items()}))
+        feats.append(SeqFeature(loc, type=f["type"], qualifiers={k: list(v) for k, v in f.get("quals", {}).items()}, **({"id": f["fid"]} if "fid" in f else {})))
     ann = dict(spec.get("annotations", {}))
     if "refs" in spec:
         refs = []
